@@ -95,6 +95,8 @@ def convertMCNPGeometry(mcnp_parser, lattice_params, args):
     if not args.skip_deduplication:
         dic_surface_t4, renumber = remove_duplicate_surfaces(dic_surface_t4)
         dic_volume = renumber_surfaces(dic_volume, renumber)
+        # the helper planes for unions may have been merged into user surfaces
+        union_ids = tuple(renumber[surf] for surf in union_ids)
 
     remove_empty_volumes(dic_volume, union_ids)
     remove_unused_volumes(dic_volume)
